@@ -114,6 +114,12 @@ impl Module {
                 ev.type_ = type_registry
                     .resolve_grammar_type(&scope, type_ref)
                     .ok_or_else(|| anyhow::anyhow!("failed to resolve type for {}", ev.name))?;
+                if ev.type_.is_void_by_value() {
+                    anyhow::bail!(
+                        "extern value `{}` is a `void` by value; `void` can only be used behind a pointer",
+                        ev.name
+                    );
+                }
             }
         }
 
